@@ -67,7 +67,6 @@ def observe_obj(kind, obj, tail=SENTINEL, touch=False):
         r["stage"] = "rewrite"
         r["reenc"] = A.encode(dec)
         r["stage"] = "done"
-        r["obj"], r["dec"] = obj, dec
     except Exception as e:  # recorded, judged by the session
         r["exc"] = f"{type(e).__name__}: {e}"
     return r
